@@ -601,4 +601,42 @@ mut("val: construction no longer checks allowed values", ["R-VAL-SIB"],
 mut("val: a quantity parameter loses its default", ["R-VAL-DEF"],
     [(NW, '''            "bandwidth_energy_intensity": SourceValue(0.1 * u.kWh / u.GB)''', "")], ["bandwidth_energy_intensity"])
 
+# ------------------------------------------------------------------------------------------------ R-DEG
+mut("deg: storage energy multiplied by PUE twice", ["R-DEG"],
+    [(ST, '''        storage_energy = (active_storage_energy + idle_storage_energy)''',
+      '''        storage_energy = (active_storage_energy + idle_storage_energy) * self.power_usage_effectiveness''')],
+    ["power_usage_effectiveness", "Storage.instances_energy"])
+mut("deg: device fabrication divided by lifespan only", ["R-DEG"],
+    [(UP, "                    / (device.lifespan * device.fraction_of_usage_time)", "                    / device.lifespan")],
+    ["fraction_of_usage_time", "devices_fabrication_footprint"])
+mut("deg: network footprint uses a constant intensity instead of the country's", ["R-DEG"],
+    [(NW, "            energy_footprint += up_network_consumption * up.country.average_carbon_intensity",
+      "            energy_footprint += up_network_consumption * SourceValue(100 * u.g / u.kWh)")],
+    ["Country.average_carbon_intensity", "Network.energy_footprint"])
+mut("deg: idle energy divided by PUE", ["R-DEG"],
+    [(SB, "                self.idle_power * self.power_usage_effectiveness * ExplainableQuantity(1 * u.hour, \"one hour\"))",
+      "                self.idle_power / self.power_usage_effectiveness * ExplainableQuantity(1 * u.hour, \"one hour\"))")],
+    ["power_usage_effectiveness", "instances_energy"])
+mut("deg: storage footprint uses the server's PUE in the fabrication footprint", ["R-DEG"],
+    [(IH, "                / self.lifespan)", "                / self.lifespan * self.power_usage_effectiveness)")],
+    ["independent", "instances_fabrication_footprint"], undecided_ok=True)
+mut("deg: network consumption adds a fixed overhead per hour", ["R-DEG"],
+    [(NW, "                        self.bandwidth_energy_intensity * hourly_data_transferred_per_up[up]).to(u.kWh)",
+      "                        self.bandwidth_energy_intensity * hourly_data_transferred_per_up[up] + SourceValue(1 * u.Wh)).to(u.kWh)")],
+    ["Network.energy_footprint"])
+mut("deg: bitrate ignores the frame rate", ["R-DEG"],
+    [(VS, "        self.dynamic_bitrate = (pixel_count * self.service.bits_per_pixel * self.refresh_rate",
+      "        self.dynamic_bitrate = (pixel_count * self.service.bits_per_pixel * SourceValue(30 / u.s)")],
+    ["refresh_rate", "dynamic_bitrate"])
+mut("deg: device energy squared in the number of journeys", ["R-DEG"],
+    [(UP, "        devices_energy = (self.nb_usage_journeys_in_parallel * total_devices_energy_spent_over_one_full_hour).to(u.kWh)",
+      "        devices_energy = (self.nb_usage_journeys_in_parallel * self.nb_usage_journeys_in_parallel * total_devices_energy_spent_over_one_full_hour).to(u.kWh)")],
+    ["hourly_usage_journey_starts", "devices_energy"])
+twin("deg: product re-associated and the one-hour constant hoisted", ["R-DEG", "R-PROV"],
+     [(SB, '''        energy_spent_by_one_idle_instance_over_one_hour = (
+                self.idle_power * self.power_usage_effectiveness * ExplainableQuantity(1 * u.hour, "one hour"))''',
+       '''        one_hour = ExplainableQuantity(1 * u.hour, "one hour")
+        energy_spent_by_one_idle_instance_over_one_hour = (
+                one_hour * (self.power_usage_effectiveness * self.idle_power))''')])
+
 VARIANTS = [v for v in V if v is not None]
